@@ -223,6 +223,23 @@ fn enumerate(thorough: bool) -> EnumFn {
                 acc.case(&format!("projects/proj{}{}", mid, id));
             }
         }
+        // (f) whole segments repeated, swapped or missing: every sequence of up to 6 tokens
+        {
+            let toks = ["projects/", "/topics/", "/subscriptions/", "topics/", "p", "t", "/"];
+            let mut last = vec![String::new()];
+            for _ in 0..(if thorough { 7 } else { 6 }) {
+                let mut next = vec![];
+                for w in &last {
+                    for t in toks {
+                        next.push(format!("{}{}", w, t));
+                    }
+                }
+                for w in &next {
+                    acc.case(w);
+                }
+                last = next;
+            }
+        }
         // plainly valid names must be accepted (a reject-everything parser would satisfy everything above)
         for (s, is_topic) in PLAINLY_VALID {
             if only.is_some() && only != Some(s) {
